@@ -383,11 +383,13 @@ type refFile struct {
 
 func c01FaultFiles() []refFile {
 	return []refFile{
-		{"compose.yaml", "services:\n  web:\n    image: x\n    extends: {file: ext/base.yaml, service: base}\n    env_file:\n      - ./web.env\n      - {path: ./optional.env, required: false}\n    label_file: [./web.labels]\ninclude:\n  - path: inc/compose.yaml\n    env_file: ./inc.env\n  - inc2/compose.yaml\n", true, "compose.yaml"},
+		{"compose.yaml", "services:\n  web:\n    image: x\n    extends: {file: ext/base.yaml, service: base}\n    env_file:\n      - {path: ./optional-first.env, required: false}\n      - ./web.env\n      - {path: ./optional.env, required: false}\n      - {path: ./last.env, required: true}\n    label_file: [./web.labels]\ninclude:\n  - path: inc/compose.yaml\n    env_file: ./inc.env\n  - inc2/compose.yaml\n", true, "compose.yaml"},
 		{"override.yaml", "services:\n  web:\n    environment: {O: \"1\"}\n", true, "override.yaml"},
 		{"ext/base.yaml", "services:\n  base:\n    image: y\n    hostname: fromext\n", true, "base.yaml"},
 		{"web.env", "W=1\n", true, "web.env"},
 		{"optional.env", "OPT=1\n", false, "optional.env"},
+		{"optional-first.env", "OPTF=1\n", false, "optional-first.env"},
+		{"last.env", "LAST=1\n", true, "last.env"},
 		{"web.labels", "lab=1\n", true, "web.labels"},
 		{"inc/compose.yaml", "services:\n  inc:\n    image: ${INCIMG:-z}\n", true, "compose.yaml"},
 		{"inc.env", "INCIMG=fromenvfile\n", true, "inc.env"},
